@@ -235,6 +235,9 @@ func modelStrFn(tag string, sameLen bool) modelFn {
 			st.assumeRaw(Le(r.Len, Mul(IntLit(4), Add(s.Len, IntLit(1)))))
 		}
 		st.assumeRaw(Eq(x.strID(st, r), App("strfn_"+tag, SInt, x.strID(st, s))))
+		if tag == "canonkey" {
+			x.canonKeyAxiom()
+		}
 		ret1(st, k, r)
 	}
 }
@@ -588,7 +591,19 @@ func (x *Exec) canonKey(st *State, name StrV) *Term {
 	if lit, ok := strLitOf(name); ok {
 		return x.strID(st, x.strLit(canonicalMIME(lit)))
 	}
+	x.canonKeyAxiom()
 	return App("strfn_canonkey", SInt, x.strID(st, name))
+}
+
+// canonKeyAxiom: http.CanonicalHeaderKey is idempotent (and header literals used as keys are canonical).
+func (x *Exec) canonKeyAxiom() {
+	if x.canonAxiomDone {
+		return
+	}
+	x.canonAxiomDone = true
+	v := Var("qck", SInt)
+	c := App("strfn_canonkey", SInt, v)
+	x.GlobalFacts = append(x.GlobalFacts, Forall([]*Term{v}, Eq(App("strfn_canonkey", SInt, c), c)))
 }
 
 func canonicalMIME(s string) string {
